@@ -55,6 +55,7 @@ type sockConn struct {
 	ready    atomic.Bool
 	exited   bool
 	notified map[string]int // tag -> notifications written
+	events   []string       // short trace for failure reports
 }
 
 type sockServer struct {
@@ -98,6 +99,8 @@ func (s *sockServer) ServeHTTP(w http.ResponseWriter, r *http.Request) {
 	_ = ws.WriteControl(websocket.PingMessage, []byte("verif"), time.Now().Add(10*time.Second))
 
 	frames := make(chan []byte)
+	done := make(chan struct{})
+	defer close(done)
 	go func() {
 		defer close(frames)
 		for {
@@ -105,12 +108,27 @@ func (s *sockServer) ServeHTTP(w http.ResponseWriter, r *http.Request) {
 			if err != nil {
 				return
 			}
-			frames <- b
+			select {
+			case frames <- b:
+			case <-done:
+				return
+			}
 		}
 	}()
 	var held []sockReq
+	ev := func(format string, a ...interface{}) {
+		s.mu.Lock()
+		if len(rec.events) < 200 {
+			rec.events = append(rec.events, fmt.Sprintf(format, a...))
+		}
+		s.mu.Unlock()
+	}
 	write := func(format string, a ...interface{}) bool {
-		return ws.WriteMessage(websocket.TextMessage, []byte(fmt.Sprintf(format, a...))) == nil
+		err := ws.WriteMessage(websocket.TextMessage, []byte(fmt.Sprintf(format, a...)))
+		if err != nil {
+			ev("write failed: %v", err)
+		}
+		return err == nil
 	}
 	notifyAll := func(tag string) {
 		s.mu.Lock()
@@ -177,6 +195,7 @@ func (s *sockServer) ServeHTTP(w http.ResponseWriter, r *http.Request) {
 			if len(req.Params) == 1 {
 				_ = json.Unmarshal(req.Params[0], &tok)
 			}
+			ev("%s %s", req.Method, tok)
 			switch req.Method {
 			case "eth_subscribe":
 				s.mu.Lock()
@@ -227,6 +246,7 @@ func (s *sockServer) ServeHTTP(w http.ResponseWriter, r *http.Request) {
 		case <-idle:
 			flush()
 		case tag := <-rec.cmd:
+			ev("cmd %s", tag)
 			flush()
 			notifyAll(tag)
 		}
@@ -497,8 +517,8 @@ func runSock(c SockCase) (vs []evid.Violation, info sockInfo) {
 		if !ok {
 			p := dumpGoroutines("stuck")
 			srv.mu.Lock()
-			fail("notification-routing", "a subscription did not receive the notification sent to it on the surviving connection\n%s, connection %d of %d (server ids there: %v, live ids: %v, re-subscribe frames: %v, unsubscribed: %v, notifications written: %v, handler exited: %v, cut: %v; received so far: %+v); goroutine dump: %s",
-				ss.token, final.n, len(srv.conns), final.subIDs, final.idToken, final.subFrames, final.unsubs, final.notified, final.exited, final.dropped, ss.snapshot(), p)
+			fail("notification-routing", "a subscription did not receive the notification sent to it on the surviving connection\n%s, connection %d of %d (server ids there: %v, live ids: %v, re-subscribe frames: %v, unsubscribed: %v, notifications written: %v, handler exited: %v, cut: %v; received so far: %+v; server trace: %v); goroutine dump: %s",
+				ss.token, final.n, len(srv.conns), final.subIDs, final.idToken, final.subFrames, final.unsubs, final.notified, final.exited, final.dropped, ss.snapshot(), final.events, p)
 			srv.mu.Unlock()
 		}
 	}
